@@ -19,6 +19,13 @@ use crate::report::{self, Report, Violation};
 use crate::rng::Rng;
 use crate::rulecheck::{shrink_lines, CaseResult, LEVEL};
 use darklua_core::nodes::Block;
+
+// property C14's document generator and serde-data recorder (shared source files, compiled here too)
+#[path = "c14_data.rs"]
+mod c14_data;
+#[path = "c14_gen.rs"]
+mod c14_gen;
+
 use darklua_core::rules::Rule;
 use serde_json::{json, Value};
 
@@ -37,6 +44,19 @@ pub struct Cfg {
     pub oracle: bool,
     pub target: Target,
     pub label: String,
+    /// environment variable the configuration reads (`env_json`): (name, text)
+    pub env: Option<(String, String)>,
+}
+
+/// the replayable input of a finding: rule configuration, program and the environment variable it reads
+fn input_of(cfg: &Cfg, code: &str) -> serde_json::Map<String, Value> {
+    let mut m = serde_json::Map::new();
+    m.insert("rule".into(), json!(cfg.rule_json));
+    m.insert("code".into(), json!(code));
+    if let Some((name, text)) = &cfg.env {
+        m.insert("env".into(), json!({"name": name, "value": text}));
+    }
+    m
 }
 
 const ASSERT_PRELUDE: &str = "assert = function(...) return ... end\n";
@@ -93,21 +113,174 @@ pub fn remove_cfg(rule_name: &'static str, preserve: bool) -> Cfg {
         oracle: preserve,
         target,
         label: format!("{}{}", rule_name, if preserve { "" } else { ":no-preserve" }),
+        env: None,
     }
 }
 
-/// `None` when darklua rejects the configuration
-pub fn inject_cfg(name: &str, value: &Value) -> Option<Cfg> {
-    let rule_json = format!("{{ rule: 'inject_global_value', identifier: '{}', value: {} }}", name, value);
-    let rule = exec::rule_from_json(&rule_json).ok()?;
-    // read the value expression off the real rule: apply it to `return NAME`
-    let probe_code = format!("return {}", name);
-    let mut probe = exec::parse(&probe_code).ok()?;
-    exec::apply_rules(&mut probe, &[rule], &probe_code).ok()?;
-    let sexp = astsexp::block_to_sexp(&probe);
-    let expr = sexp.strip_prefix("(block () (return ")?.strip_suffix("))")?.to_owned();
+// ---------------------------------------------------------------- the value expression, from the JSON text
+
+/// minimal S-expression reader for the answers of `c14.ser`
+#[derive(Debug)]
+enum Sx {
+    A(String),
+    L(Vec<Sx>),
+}
+
+fn sx_parse(text: &str) -> Option<Sx> {
+    fn go(chars: &[char], i: &mut usize) -> Option<Sx> {
+        while *i < chars.len() && chars[*i] == ' ' {
+            *i += 1;
+        }
+        if *i >= chars.len() {
+            return None;
+        }
+        if chars[*i] == '(' {
+            *i += 1;
+            let mut items = Vec::new();
+            loop {
+                while *i < chars.len() && chars[*i] == ' ' {
+                    *i += 1;
+                }
+                if *i >= chars.len() {
+                    return None;
+                }
+                if chars[*i] == ')' {
+                    *i += 1;
+                    return Some(Sx::L(items));
+                }
+                items.push(go(chars, i)?);
+            }
+        }
+        let start = *i;
+        while *i < chars.len() && chars[*i] != ' ' && chars[*i] != '(' && chars[*i] != ')' {
+            *i += 1;
+        }
+        Some(Sx::A(chars[start..*i].iter().collect()))
+    }
+    let chars: Vec<char> = text.chars().collect();
+    let mut i = 0;
+    let r = go(&chars, &mut i)?;
+    if chars[i..].iter().all(|c| *c == ' ') { Some(r) } else { None }
+}
+
+/// C14's expression wire format (lean/DarkluaModel/C14/Driver.lean) → the shared AST wire format
+fn c14_expr_to_shared(e: &Sx) -> Option<String> {
+    Some(match e {
+        Sx::A(a) => match a.as_str() {
+            "nil" | "true" | "false" => a.clone(),
+            _ => return None,
+        },
+        Sx::L(items) => {
+            let head = match items.first()? { Sx::A(h) => h.as_str(), _ => return None };
+            let atom = |i: usize| -> Option<String> { match items.get(i)? { Sx::A(a) => Some(a.clone()), _ => None } };
+            match head {
+                "num" | "str" | "var" => format!("({} {})", head, atom(1)?),
+                "hex" => {
+                    let n: u64 = atom(1)?.parse().ok()?;
+                    format!("(num {})", crate::model::f64_wire(n as f64))
+                }
+                "neg" => format!("(un neg {})", c14_expr_to_shared(items.get(1)?)?),
+                "div" => format!("(bin div {} {})", c14_expr_to_shared(items.get(1)?)?, c14_expr_to_shared(items.get(2)?)?),
+                "paren" => format!("(paren {})", c14_expr_to_shared(items.get(1)?)?),
+                "field" => format!("(field {} {})", c14_expr_to_shared(items.get(1)?)?, atom(2)?),
+                "call" => {
+                    let f = c14_expr_to_shared(items.get(1)?)?;
+                    let args = match items.get(2)? {
+                        Sx::L(a) if matches!(a.first(), Some(Sx::A(h)) if h == "args") => a[1..].iter().map(c14_expr_to_shared).collect::<Option<Vec<_>>>()?,
+                        _ => return None,
+                    };
+                    format!("(call {} - t{})", f, args.iter().map(|a| format!(" {}", a)).collect::<String>())
+                }
+                "table" => {
+                    let mut out = String::from("(table");
+                    for entry in &items[1..] {
+                        let parts = match entry { Sx::L(p) => p, _ => return None };
+                        let kind = match parts.first()? { Sx::A(k) => k.as_str(), _ => return None };
+                        match kind {
+                            "pos" => out.push_str(&format!(" (pos {})", c14_expr_to_shared(parts.get(1)?)?)),
+                            "named" => {
+                                let name = match parts.get(1)? { Sx::A(n) => n.clone(), _ => return None };
+                                out.push_str(&format!(" (named {} {})", name, c14_expr_to_shared(parts.get(2)?)?))
+                            }
+                            "keyed" => out.push_str(&format!(" (keyed {} {})", c14_expr_to_shared(parts.get(1)?)?, c14_expr_to_shared(parts.get(2)?)?)),
+                            _ => return None,
+                        }
+                    }
+                    out.push(')');
+                    out
+                }
+                _ => return None,
+            }
+        }
+    })
+}
+
+fn number_expr(f: f64) -> String {
+    if f < 0.0 {
+        format!("(un neg (num {}))", crate::model::f64_wire(-f))
+    } else {
+        format!("(num {})", crate::model::f64_wire(f))
+    }
+}
+
+/// The value expression the rule must inject for this JSON value, computed WITHOUT the real rule:
+/// * `value:` scalars and lists of strings follow `RulePropertyValue::into_expression` (Boolean, String,
+///   Usize, Float, StringList, None — written down here from the JSON value);
+/// * `value:` arrays / objects and every `env_json` value go through `to_expression` on the serde data of
+///   the parsed JSON: the Lean model of property C14 (`c14.ser`, `toExpr`) on the recorded data.
+/// `Err("refused")`: the model's serializer refuses the data (darklua must reject the configuration).
+pub fn model_value_expr(model: &mut Model, value: &Value, env_json: bool) -> Result<String, String> {
+    if !env_json {
+        match value {
+            Value::Null => return Ok("nil".into()),
+            Value::Bool(b) => return Ok(b.to_string()),
+            Value::String(s) => return Ok(format!("(str {})", hex(s.as_bytes()))),
+            Value::Number(n) => return Ok(number_expr(n.as_f64().ok_or("number")?)),
+            Value::Array(items) if items.iter().all(|i| i.is_string()) => {
+                let entries: String = items.iter().map(|i| format!(" (pos (str {}))", hex(i.as_str().unwrap().as_bytes()))).collect();
+                return Ok(format!("(table{})", entries));
+            }
+            _ => {}
+        }
+    }
+    let data = c14_data::record(value)?;
+    let answer = model.ask(&format!("c14.ser {}", data.to_sexp()));
+    if answer == "refused" {
+        return Err("refused".into());
+    }
+    let parsed = sx_parse(&answer).ok_or_else(|| format!("c14.ser protocol error: {}", answer))?;
+    c14_expr_to_shared(&parsed).ok_or_else(|| format!("cannot translate the C14 expression {}", answer))
+}
+
+/// how the configuration hands the value to the rule
+#[derive(Clone, Debug)]
+pub enum ValueSource {
+    /// `value: <json>`
+    Value,
+    /// `env_json: '<NAME>'` with the environment variable set to the JSON text
+    EnvJson(String),
+}
+
+/// `Ok(None)` when darklua rejects the configuration; `Err` when darklua accepts a value the model's
+/// serializer refuses (a correspondence break of the JSON → expression step)
+pub fn inject_cfg(model: &mut Model, name: &str, value: &Value, source: &ValueSource) -> Result<Option<Cfg>, String> {
+    let (rule_json, env) = match source {
+        ValueSource::Value => (format!("{{ rule: 'inject_global_value', identifier: '{}', value: {} }}", name, value), None),
+        ValueSource::EnvJson(var) => {
+            let text = value.to_string();
+            std::env::set_var(var, &text);
+            (format!("{{ rule: 'inject_global_value', identifier: '{}', env_json: '{}' }}", name, var), Some((var.clone(), text)))
+        }
+    };
+    let is_env = env.is_some();
+    let real = exec::rule_from_json(&rule_json);
+    let expr = match (model_value_expr(model, value, is_env), real) {
+        (Ok(e), Ok(_)) => e,
+        (Err(why), Ok(_)) => return Err(format!("darklua accepts {} but the model has no value expression: {}", rule_json, why)),
+        (_, Err(_)) => return Ok(None),
+    };
     let lua = lua_of_json(value);
-    Some(Cfg {
+    Ok(Some(Cfg {
         rule_name: "inject_global_value",
         rule_json,
         props: format!("(inject {} {})", hex(name.as_bytes()), expr),
@@ -115,8 +288,9 @@ pub fn inject_cfg(name: &str, value: &Value) -> Option<Cfg> {
         prelude_out: "_G = {}\n".to_owned(),
         oracle: true,
         target: Target::Inject { name: name.to_owned(), prefix_ok: value.is_string() || value.is_array() || value.is_object(), is_string: value.is_string() },
-        label: format!("inject_global_value:{}", json_kind(value)),
-    })
+        label: format!("inject_global_value:{}{}", json_kind(value), if is_env { ":env_json" } else { "" }),
+        env,
+    }))
 }
 
 /// F34: values the untagged `RulePropertyValue` decodes as a `RequireMode`
@@ -235,7 +409,7 @@ pub fn check_program(model: &mut Model, report: &mut Report, cfg: &Cfg, code: &s
                 kind: "oracle".into(),
                 check: format!("{}:panic", cfg.rule_name),
                 what: format!("rule {} panicked", cfg.rule_name),
-                input: json!({"rule": cfg.rule_json, "code": code}),
+                input: Value::Object(input_of(cfg, code)),
                 failing_input_found: true,
             });
             return CaseResult::Skipped("panic");
@@ -300,10 +474,15 @@ pub fn check_program(model: &mut Model, report: &mut Report, cfg: &Cfg, code: &s
                             "output of {} in the normal environment behaves differently from the input in the modified environment (input error-free there, outside every listed defect region)",
                             cfg.rule_name
                         ),
-                        input: json!({"rule": cfg.rule_json, "code": small, "prelude_in": cfg.prelude_in, "prelude_out": cfg.prelude_out,
-                            "input_outcome_modified_env": detail.as_ref().map(|d| d.0.clone()),
-                            "output_outcome": detail.as_ref().map(|d| d.1.clone()),
-                            "output_tree": detail.as_ref().map(|d| d.2.clone())}),
+                        input: {
+                            let mut m = input_of(cfg, &small);
+                            m.insert("prelude_in".into(), json!(cfg.prelude_in));
+                            m.insert("prelude_out".into(), json!(cfg.prelude_out));
+                            m.insert("input_outcome_modified_env".into(), json!(detail.as_ref().map(|d| d.0.clone())));
+                            m.insert("output_outcome".into(), json!(detail.as_ref().map(|d| d.1.clone())));
+                            m.insert("output_tree".into(), json!(detail.as_ref().map(|d| d.2.clone())));
+                            Value::Object(m)
+                        },
                         failing_input_found: true,
                     });
                 }
@@ -345,7 +524,11 @@ pub fn check_program(model: &mut Model, report: &mut Report, cfg: &Cfg, code: &s
                 kind: "correspondence".into(),
                 check: format!("{}:model", cfg.label),
                 what: format!("Lean model of {} and the real rule produce different trees; the theorems about the model no longer speak about this code", cfg.rule_name),
-                input: json!({"rule": cfg.rule_json, "code": small, "model_answer_prefix": answer.chars().take(300).collect::<String>()}),
+                input: {
+                    let mut m = input_of(cfg, &small);
+                    m.insert("model_answer_prefix".into(), json!(answer.chars().take(300).collect::<String>()));
+                    Value::Object(m)
+                },
                 failing_input_found: found,
             });
         }
@@ -362,7 +545,7 @@ fn replay_known(model: &mut Model, report: &mut Report) {
             (Some(r), Some(c)) => (r.to_owned(), c.to_owned()),
             _ => continue,
         };
-        let cfg = match cfg_of_rule_json(&rule_json) {
+        let cfg = match cfg_of_rule_json(model, &rule_json, w.get("env")) {
             Some(c) => c,
             None => continue,
         };
@@ -407,8 +590,9 @@ fn replay_known(model: &mut Model, report: &mut Report) {
     }
 }
 
-/// rebuild a `Cfg` from the JSON5 rule text of a replay / known finding
-pub fn cfg_of_rule_json(rule_json: &str) -> Option<Cfg> {
+/// rebuild a `Cfg` from the JSON5 rule text of a replay / known finding (`env`: the environment variable
+/// an `env_json` configuration reads, `{"name": …, "value": …}`)
+pub fn cfg_of_rule_json(model: &mut Model, rule_json: &str, env: Option<&Value>) -> Option<Cfg> {
     let v: Value = json5::from_str(rule_json).ok()?;
     let (name, obj) = match &v {
         Value::String(s) => (s.clone(), None),
@@ -421,7 +605,14 @@ pub fn cfg_of_rule_json(rule_json: &str) -> Option<Cfg> {
         "remove_debug_profiling" => Some(remove_cfg("remove_debug_profiling", preserve)),
         "inject_global_value" => {
             let o = obj?;
-            inject_cfg(o.get("identifier")?.as_str()?, o.get("value").unwrap_or(&Value::Null))
+            let ident = o.get("identifier")?.as_str()?;
+            if let Some(var) = o.get("env_json").and_then(|x| x.as_str()) {
+                let text = env?.get("value")?.as_str()?;
+                let value: Value = json5::from_str(text).ok()?;
+                inject_cfg(model, ident, &value, &ValueSource::EnvJson(var.to_owned())).ok()?
+            } else {
+                inject_cfg(model, ident, o.get("value").unwrap_or(&Value::Null), &ValueSource::Value).ok()?
+            }
         }
         _ => None,
     }
@@ -433,7 +624,7 @@ fn run_replay(report: &mut Report, path: &str) {
     let input = if v.get("input").is_some() { v["input"].clone() } else { v["witness"].clone() };
     let (rule_json, code) = (input["rule"].as_str().unwrap_or("").to_owned(), input["code"].as_str().unwrap_or("").to_owned());
     let mut model = Model::spawn();
-    match cfg_of_rule_json(&rule_json) {
+    match cfg_of_rule_json(&mut model, &rule_json, input.get("env")) {
         Some(cfg) => {
             let r = check_program(&mut model, report, &cfg, &code);
             report.notes.push(format!("replay {}: {:?}", path, r));
@@ -443,7 +634,37 @@ fn run_replay(report: &mut Report, path: &str) {
     }
 }
 
-fn all_cfgs(report: &mut Report) -> Vec<Cfg> {
+/// fixed values of every JSON kind, boundary integers (also nested), and documents drawn from property
+/// C14's data generator (JSON flavour: nested arrays / objects, awkward strings and keys, integers up to
+/// the i64 / u64 limits, decimals); each through `value:` and — any kind — through `env_json`
+fn inject_value_pool(rng: &mut Rng, generated: usize) -> Vec<Value> {
+    let mut vs = inject_values();
+    vs.extend(vec![
+        json!([-1, 2, -300]), json!({"offset": -16}), json!([i64::MIN]), json!([-1]), json!([u64::MAX]), json!(u64::MAX),
+        json!([9007199254740991u64, 9007199254740993u64, -9007199254740993i64]), json!([[-5], {"a": [-7, {"b": -9}]}]),
+        json!({"neg": -1, "list": [-2.5, -3, 0, 1e300, 1e-300]}), json!(-9007199254740993i64), json!([0.1, -0.1, 255, 256, 65536]),
+        json!(["only", "strings"]), json!([["nested", "strings"]]), json!({"if": 1, "not an identifier": [true], "": null}),
+    ]);
+    let caps = c14_gen::caps(c14_gen::Fmt::Json);
+    let mut tries = 0;
+    let mut made = 0;
+    while made < generated && tries < generated * 6 {
+        tries += 1;
+        let depth = 1 + rng.below(3);
+        let g = c14_gen::gen_doc(rng, c14_gen::Fmt::Json, depth, &caps);
+        let text = c14_gen::render(&g, c14_gen::Fmt::Json, rng);
+        if text.len() > 600 {
+            continue;
+        }
+        if let Ok(v) = json5::from_str::<Value>(&text) {
+            vs.push(v);
+            made += 1;
+        }
+    }
+    vs
+}
+
+fn all_cfgs(model: &mut Model, report: &mut Report) -> Vec<Cfg> {
     let mut cfgs = vec![
         remove_cfg("remove_assertions", true),
         remove_cfg("remove_assertions", false),
@@ -451,13 +672,39 @@ fn all_cfgs(report: &mut Report) -> Vec<Cfg> {
         remove_cfg("remove_debug_profiling", false),
     ];
     let names = ["DEBUG", "__DEV__", "VERSION"];
-    for (i, v) in inject_values().iter().enumerate() {
+    let mut rng = Rng::new(report.seed.wrapping_mul(7919).wrapping_add(171717));
+    let generated = if report.is_thorough() { 400 } else { 80 };
+    for (i, v) in inject_value_pool(&mut rng, generated).iter().enumerate() {
+        // every value through `env_json`; through `value:` unless it is in the F34 region
+        let mut sources = vec![ValueSource::EnvJson(format!("C17_ENV_JSON_{}", i))];
         if require_mode_region(v) {
-            continue;
+            report.hist("inject_value_source", "env_json only (value: would be decoded as a require mode, F34)");
+        } else {
+            sources.push(ValueSource::Value);
         }
-        match inject_cfg(names[i % names.len()], v) {
-            Some(c) => cfgs.push(c),
-            None => report.hist("inject_value_rejected_by_darklua", &v.to_string()),
+        // the pool is large: alternate instead of doubling, except for the fixed boundary values
+        let both = i < 45;
+        let chosen: Vec<ValueSource> = if both || sources.len() == 1 { sources } else { vec![sources[i % 2].clone()] };
+        for source in chosen {
+            match inject_cfg(model, names[i % names.len()], v, &source) {
+                Ok(Some(c)) => {
+                    report.hist("inject_value_source", if c.env.is_some() { "env_json" } else { "value" });
+                    // the JSON → expression step alone, on the smallest program that reads the global
+                    let probe = format!("return {}", names[i % names.len()]);
+                    let r = check_program(model, report, &c, &probe);
+                    report.hist("inject_value_probe", &format!("{:?}", r));
+                    report.case(Some((&c.label, &c.rule_json)));
+                    cfgs.push(c);
+                }
+                Ok(None) => report.hist("inject_value_rejected_by_darklua", json_kind(v)),
+                Err(what) => report.violation(Violation {
+                    kind: "correspondence".into(),
+                    check: "inject_global_value:value-conversion".into(),
+                    what,
+                    input: json!({"value": v}),
+                    failing_input_found: false,
+                }),
+            }
         }
     }
     cfgs
@@ -470,10 +717,15 @@ pub fn run(report: &mut Report, replay: Option<&str>) {
     }
     report.rule = "targeted generator (progen_c17): calls of assert / debug.profilebegin / debug.profileend and reads of the injected \
         global (also _G.NAME, _G['NAME']) in statement, single-value, multi-value, operand, table-constructor and return position, 0..4 \
-        arguments pure or effectful per darklua's evaluator, multi-value last arguments, nested targeted calls, falsy first arguments, \
+        arguments pure or effectful per darklua's evaluator — fixed lists plus arguments composed from the grammar has_side_effects \
+        distinguishes (and / or / not / comparison / parentheses / table constructors over constants, variables of unknown truthiness \
+        that are falsy, truthy or undefined at run time, and effectful leaves) —, multi-value last arguments, nested targeted calls, falsy first arguments, \
         under shadowing of assert/debug/select/_G/NAME at every scope kind (do, while, repeat+condition, numeric for, generic for, if, \
         function and method parameter, local function, local after use, escaping closure), as field/method of another table; x \
-        preserve_arguments_side_effects on/off x injected values of every JSON kind; plus the shared generator (Lua 5.1 and Luau). \
+        preserve_arguments_side_effects on/off x injected values: every JSON kind, boundary integers (i64::MIN, u64::MAX, 2^53±1, nested \
+        negatives) and documents from property C14's generator, through `value:` and `env_json`; the value expression handed to the \
+        Lean model is computed from the JSON (scalars per RulePropertyValue, arrays/objects/env_json by C14's Lean toExpr), not read \
+        off the real rule; plus the shared generator (Lua 5.1 and Luau). \
         Each program: real Rule::process vs Lean model (trees), and outcome(real output) vs outcome(prelude ++ input) on the reference \
         semantics when the latter is error-free and the program is outside the listed defect regions (c17.hyp). Non-trivial = the rule \
         changed the tree; distinct by (configuration, program text)."
@@ -496,7 +748,7 @@ pub fn run(report: &mut Report, replay: Option<&str>) {
                 if let Ok(text) = std::fs::read_to_string(&p) {
                     if let Ok(v) = serde_json::from_str::<Value>(&text) {
                         if let (Some(rule_json), Some(code)) = (v["rule"].as_str(), v["code"].as_str()) {
-                            if let Some(cfg) = cfg_of_rule_json(rule_json) {
+                            if let Some(cfg) = cfg_of_rule_json(&mut model, rule_json, v.get("env")) {
                                 let r = check_program(&mut model, report, &cfg, code);
                                 report.hist("corpus", &format!("{:?}", r));
                                 report.case(Some((&cfg.label, code)));
@@ -507,7 +759,10 @@ pub fn run(report: &mut Report, replay: Option<&str>) {
             }
         }
     }
-    let cfgs = all_cfgs(report);
+    let cfgs = {
+        let mut model = Model::spawn();
+        all_cfgs(&mut model, report)
+    };
     let per_thread: usize = if report.is_thorough() { 6000 } else { 600 };
     let threads = 14;
     let seed = report.seed;
